@@ -15,7 +15,7 @@ variable {F : Type}
 /-- every body of the program's table is laid out at the jump entry that is its id, followed by `EndExpression` -/
 structure Env (P : Prog F) (bodies : List (Nat × Expr F)) : Prop where
   body : ∀ id b, lookupBody bodies id = some b → ∃ t, P.jumps[id]? = some t ∧ Located P id id t b ∧
-    wfE b = true ∧ P.instrs[t + len b]? = some (.endExpression, none)
+    wfC b = true ∧ P.instrs[t + len b]? = some (.endExpression, none)
 
 section
 variable (fo : FloatOps F) (host : Host F) (P : Prog F) (bodies : List (Nat × Expr F))
@@ -31,16 +31,16 @@ def ResOK (entry pc pcEnd : Nat) (tail : Bool) (rs vs : List (Val F)) (fr : List
       (tail = true → extra = [])
 
 def SimAt (fuel : Nat) (e : Expr F) : Prop :=
-  ∀ cur st res st', evalF fo host bodies cur fuel e st = .ok (res, st') →
-  ∀ root pc rs vs fr entry, Located P root cur pc e → wfE e = true → (root = cur ∨ enFree e = true) →
+  ∀ cur st res st', evalFS fo host bodies cur fuel e st = .ok (res, st') →
+  ∀ root pc rs vs fr entry, Located P root cur pc e → wfC e = true → (root = cur ∨ enFree e = true) →
   P.jumps[cur]? = some entry → entry < P.instrs.size → pc + len e < P.instrs.size →
   ResOK fo host P entry pc (pc + len e) (tailR e) rs vs fr st res st'
 
 def SimE (fuel : Nat) : Prop := ∀ e, SimAt fo host P bodies fuel e
 
 def SimL (fuel : Nat) : Prop :=
-  ∀ cur items st acc r st', evalList fo host bodies cur fuel items st acc = .ok (r, st') →
-  ∀ root pc rs0 vs fr entry, LocatedList P root cur pc items → wfEList items = true →
+  ∀ cur items st acc r st', evalListS fo host bodies cur fuel items st acc = .ok (r, st') →
+  ∀ root pc rs0 vs fr entry, LocatedList P root cur pc items → wfCList items = true →
   (root = cur ∨ enFreeList items = true) →
   P.jumps[cur]? = some entry → entry < P.instrs.size → pc + lenList items < P.instrs.size →
   match r with
@@ -50,23 +50,32 @@ def SimL (fuel : Nat) : Prop :=
   | .inr v => ∃ extra, Reach fo host P ⟨pc, rs0, st.inp :: vs, fr, st.trace⟩ ⟨entry, extra ++ rs0, v :: vs, fr, st'.trace⟩
 
 def SimC (fuel : Nat) : Prop :=
-  ∀ cur arms fe st res st', evalChain fo host bodies cur fuel arms (some fe) st = .ok (res, st') →
+  ∀ cur arms fe st res st', evalChainS fo host bodies cur fuel arms (some fe) st = .ok (res, st') →
   ∀ root pc rs vs fr entry join, LocatedArms P root cur join pc arms → Located P root cur (pc + lenArms arms) fe →
-  wfEArms arms = true → wfE fe = true → (root = cur ∨ (enFreeArms arms && enFree fe) = true) →
+  wfCArms arms = true → wfC fe = true → (root = cur ∨ (enFreeArms arms && enFree fe) = true) →
   (arms ≠ [] → P.jumps[join]? = some (pc + lenArms arms + len fe) ∧ join ≠ cur) →
   P.jumps[cur]? = some entry → entry < P.instrs.size → pc + lenArms arms + len fe < P.instrs.size →
   ResOK fo host P entry pc (pc + lenArms arms + len fe) (tailRArms arms && tailR fe) rs vs fr st res st'
 
+/-- else-chain WITHOUT a final arm, under the strict evaluator: some arm matches (the empty chain is an error) -/
+def SimCN (fuel : Nat) : Prop :=
+  ∀ cur arms st res st', evalChainS fo host bodies cur fuel arms none st = .ok (res, st') →
+  ∀ root pc rs vs fr entry join, LocatedArms P root cur join pc arms →
+  wfCArms arms = true → (root = cur ∨ enFreeArms arms = true) →
+  (arms ≠ [] → P.jumps[join]? = some (pc + lenArms arms) ∧ join ≠ cur) →
+  P.jumps[cur]? = some entry → entry < P.instrs.size → pc + lenArms arms < P.instrs.size →
+  ResOK fo host P entry pc (pc + lenArms arms) (tailRArms arms) rs vs fr st res st'
+
 def SimA (fuel : Nat) : Prop :=
-  ∀ cur instr useRight f x st res st', applyVals fo host bodies cur fuel instr useRight f x st = .ok (res, st') →
+  ∀ cur instr useRight f x st res st', applyValsS fo host bodies cur fuel instr useRight f x st = .ok (res, st') →
   ∀ pcA rs vs fr, pcA + 1 < P.instrs.size →
   ∃ v s1, res = .val v ∧
     finish P (applyStep fo host P ⟨pcA, rs, st.inp :: vs, fr, st.trace⟩ instr useRight f x) = .running s1 ∧
     Reach fo host P s1 ⟨pcA + 1, v :: rs, st'.inp :: vs, fr, st'.trace⟩
 
 def SimB (fuel : Nat) : Prop :=
-  ∀ cur body st v st', evalBody fo host bodies cur fuel body st = .ok (v, st') →
-  ∀ t rs vs fr, Located P cur cur t body → wfE body = true → P.jumps[cur]? = some t →
+  ∀ cur body st v st', evalBodyS fo host bodies cur fuel body st = .ok (v, st') →
+  ∀ t rs vs fr, Located P cur cur t body → wfC body = true → P.jumps[cur]? = some t →
   t + len body < P.instrs.size →
   ∃ rs', Reach fo host P ⟨t, rs, st.inp :: vs, fr, st.trace⟩ ⟨t + len body, v :: rs', st'.inp :: vs, fr, st'.trace⟩ ∧
     (tailR body = true → rs' = rs)
@@ -90,10 +99,10 @@ theorem ResOK.sub_restart {entry pc pcEnd pc' pcEnd' : Nat} {tail tail' : Bool} 
 
 /-- outcome of a sub-evaluation, as the evaluator's `match … | other => other` sees it -/
 theorem eval_cases {cur fuel : Nat} {x : Expr F} {st : St F} :
-    (∃ v st1, evalF fo host bodies cur fuel x st = .ok (.val v, st1)) ∨
-    (∃ v st1, evalF fo host bodies cur fuel x st = .ok (.restart v, st1)) ∨
-    (∃ e, evalF fo host bodies cur fuel x st = .err e) ∨ evalF fo host bodies cur fuel x st = .fuelOut := by
-  cases h : evalF fo host bodies cur fuel x st with
+    (∃ v st1, evalFS fo host bodies cur fuel x st = .ok (.val v, st1)) ∨
+    (∃ v st1, evalFS fo host bodies cur fuel x st = .ok (.restart v, st1)) ∨
+    (∃ e, evalFS fo host bodies cur fuel x st = .err e) ∨ evalFS fo host bodies cur fuel x st = .fuelOut := by
+  cases h : evalFS fo host bodies cur fuel x st with
   | ok p =>
     obtain ⟨r, st1⟩ := p
     cases r with
@@ -112,13 +121,13 @@ theorem settle_cases (st : St F) (o : OpOut F) :
   | err e => exact .inr ⟨e, rfl⟩
 
 theorem evalF_inp_trace_val {cur fuel : Nat} {x : Expr F} {st st1 : St F} {v : Val F}
-    (_ : evalF fo host bodies cur fuel x st = .ok (.val v, st1)) : True := trivial
+    (_ : evalFS fo host bodies cur fuel x st = .ok (.val v, st1)) : True := trivial
 
 /-! ### constructs without control transfer -/
 
 theorem sim_lit {fuel : Nat} (v : Val F) : SimAt fo host P bodies (fuel + 1) (.lit v) := by
   intro cur st res st' h root pc rs vs fr entry hloc _ _ _ _ hlt
-  simp only [evalF, Out.ok.injEq, Prod.mk.injEq] at h
+  simp only [evalFS, Out.ok.injEq, Prod.mk.injEq] at h
   obtain ⟨rfl, rfl⟩ := h
   simp only [Located] at hloc
   obtain ⟨k, hi, hc⟩ := hloc
@@ -127,7 +136,7 @@ theorem sim_lit {fuel : Nat} (v : Val F) : SimAt fo host P bodies (fuel + 1) (.l
 
 theorem sim_input {fuel : Nat} : SimAt fo host P bodies (fuel + 1) (.input) := by
   intro cur st res st' h root pc rs vs fr entry hloc _ _ _ _ hlt
-  simp only [evalF, Out.ok.injEq, Prod.mk.injEq] at h
+  simp only [evalFS, Out.ok.injEq, Prod.mk.injEq] at h
   obtain ⟨rfl, rfl⟩ := h
   simp only [Located] at hloc
   simp only [len] at hlt ⊢
@@ -135,7 +144,7 @@ theorem sim_input {fuel : Nat} : SimAt fo host P bodies (fuel + 1) (.input) := b
 
 theorem sim_nested {fuel : Nat} (id : Nat) : SimAt fo host P bodies (fuel + 1) (.nested id) := by
   intro cur st res st' h root pc rs vs fr entry hloc _ _ _ _ hlt
-  simp only [evalF, Out.ok.injEq, Prod.mk.injEq] at h
+  simp only [evalFS, Out.ok.injEq, Prod.mk.injEq] at h
   obtain ⟨rfl, rfl⟩ := h
   simp only [Located] at hloc
   obtain ⟨k, hi, hc⟩ := hloc
@@ -144,7 +153,7 @@ theorem sim_nested {fuel : Nat} (id : Nat) : SimAt fo host P bodies (fuel + 1) (
 
 theorem sim_emptyNested {fuel : Nat} : SimAt fo host P bodies (fuel + 1) (.emptyNested) := by
   intro cur st res st' h root pc rs vs fr entry hloc _ hen _ _ hlt
-  simp only [evalF, Out.ok.injEq, Prod.mk.injEq] at h
+  simp only [evalFS, Out.ok.injEq, Prod.mk.injEq] at h
   obtain ⟨rfl, rfl⟩ := h
   simp only [Located] at hloc
   obtain ⟨k, hi, hc⟩ := hloc
@@ -155,7 +164,7 @@ theorem sim_emptyNested {fuel : Nat} : SimAt fo host P bodies (fuel + 1) (.empty
 
 theorem sim_ident {fuel : Nat} (sym : Nat) : SimAt fo host P bodies (fuel + 1) (.ident sym) := by
   intro cur st res st' h root pc rs vs fr entry hloc _ _ _ _ hlt
-  simp only [evalF] at h
+  simp only [evalFS] at h
   simp only [Located] at hloc
   obtain ⟨k, hi, hc⟩ := hloc
   simp only [len] at hlt ⊢
